@@ -306,6 +306,29 @@ func (p *Program) verifyUnit(ct *Contract, subst map[string]int64, suffix string
 	e.entry = &unitEntry{params: params, cells: entry, pkg: fn.Pkg.Pkg}
 	env0 := &SpecEnv{e: e, pkg: fn.Pkg.Pkg, params: params, cells: entry, old: entry}
 	p.applyStateSubst(e, env0, entry)
+	// a name for the entry value behind every pointer-to-scalar parameter: the replay driver
+	// reads it from the model (k<n>_p_<name>__deref)
+	for _, prm := range fn.Params {
+		pt, ok := prm.Type().Underlying().(*types.Pointer)
+		if !ok || prm.Name() == "" || scalarSort(pt.Elem()) == nil {
+			continue
+		}
+		func() {
+			defer func() { recover() }()
+			x, err := parseSpecExpr("*" + prm.Name())
+			if err != nil {
+				return
+			}
+			c.quiet++
+			v := e.evalSpec(SpecExpr{Src: "*" + prm.Name(), E: x, Line: "replay"}, env0)
+			c.quiet--
+			if len(v.L) != 1 {
+				return
+			}
+			d := c.freshVal(pt.Elem(), "p_"+prm.Name()+"__deref")
+			c.assume(c.eq(d.T(), v.T()), "replay name of the entry value of *"+prm.Name())
+		}()
+	}
 	// scratch locations: their entry values are arbitrary "poison" constants
 	for _, sc := range ct.Scratch {
 		tgs := e.assignTargets(sc, env0)
